@@ -250,6 +250,8 @@ def call_numpy(it, name, mod, fn, args, kwargs, node, fr):
         dt = kwargs.get("dtype")
         if dt is not None and isinstance(dt, Ref) and dt.name.endswith("bool") or (dt is not None and is_pyconst(dt) and pyval(dt) is bool):
             fv = const(bool(fill)) if fill is not None else fv
+        elif dt is not None and fn.startswith("full") and _runtime_dtype(dt):
+            fv = call("cast", fv, to_term(dt))  # the fill value is converted to a type only known at run time (may truncate)
         if fn.endswith("_like"):
             src = shape
             a = as_arr(src)
@@ -1182,6 +1184,9 @@ def val_method(it, v, name, args, kwargs, node, fr):
             if args and (isinstance(args[0], Ref) and args[0].name in ("builtins.int", "numpy.int32", "numpy.int64", "numpy.int_")
                          or is_pyconst(args[0]) and pyval(args[0]) in ("int", "int32", "int64")):
                 r.term = mk("int", v.term)
+            elif args and _runtime_dtype(args[0]):
+                # the target type is itself data (another array's dtype): the cast may truncate -- not the identity
+                r.term = call("cast", v.term, to_term(args[0]))
         return r
     if name in ("mod", "eq", "ne", "lt", "le", "gt", "ge", "add", "sub", "mul", "div", "truediv", "floordiv", "pow",
                 "multiply", "subtract", "divide"):
@@ -1254,6 +1259,13 @@ def val_method(it, v, name, args, kwargs, node, fr):
     return r
 
 
+def _runtime_dtype(d):
+    """a dtype that is not written in the source (x.dtype of some array, a parameter): unknown at analysis time"""
+    if isinstance(d, Ref) or is_pyconst(d):
+        return False
+    return isinstance(d, (Val, Unk))
+
+
 def arr_method(it, a, name, args, kwargs, node, fr):
     it.record("call", "ndarray." + name, [a] + args, dict(kwargs), node)
     if name in ("copy", "astype", "squeeze", "to_numpy", "view"):
@@ -1263,6 +1275,8 @@ def arr_method(it, a, name, args, kwargs, node, fr):
         c.notes = list(a.notes) + ([("astype", to_term(args[0]))] if name == "astype" and args else [])
         if name == "astype" and args and (isinstance(args[0], Ref) and args[0].name in ("builtins.int", "numpy.int32", "numpy.int64", "numpy.int_")):
             c.cols = [mk("int", x) for x in a.cols]
+        elif name == "astype" and args and _runtime_dtype(args[0]):
+            c.cols = [call("cast", x, to_term(args[0])) for x in a.cols]
         return c
     if name == "reshape":
         shape = args[0] if len(args) == 1 else Seq(args, "tuple")
